@@ -96,8 +96,10 @@ impl GenReq {
         out.extend_from_slice(nl);
         for (n, v) in &self.headers {
             out.extend_from_slice(n.as_bytes());
-            out.extend_from_slice(match rng.below(4) { 0 => b":", 1 => b": ", 2 => b":  ", _ => b":\t" });
+            // optional whitespace (spaces and tabs, mixed) before and after the value
+            out.extend_from_slice(match rng.below(8) { 0 => &b":"[..], 1 | 2 => b": ", 3 => b":  ", 4 => b":\t", 5 => b": \t", 6 => b":\t ", _ => b": \t \t" });
             out.extend_from_slice(v.as_bytes());
+            out.extend_from_slice(match rng.below(6) { 0 => &b" "[..], 1 => b"\t", 2 => b" \t ", _ => b"" });
             out.extend_from_slice(nl);
         }
         out.extend_from_slice(nl);
@@ -147,7 +149,7 @@ impl Group for Request1 {
         "c07.request"
     }
     fn rule(&self) -> &'static str {
-        "kvarn_async::read::request + Http1Body::read_to_bytes over a scripted AsyncRead: requests from a grammar (9 methods, origin-form targets with queries, 1.0/1.1, 0-12 headers with unique names and `name:value` / `name: value` / extra spaces / tab, values with inner spaces, colons, tabs; CRLF or bare LF; HTTP/1.0 without Host + default host; bodies 0-3000 bytes; trailing bytes after the body) x EVERY single cut position for short messages, all chunk sizes 1..8, random patterns; heads of 16 KiB +- a few bytes and 40 KB heads in 100-byte reads (limit); malformed stream: bounded strings over structural bytes; compared with the model; oracle: parsed parts equal the generator's request, body = declared bytes, oversized heads are errors for every schedule; non-trivial = more than one read was needed"
+        "kvarn_async::read::request + Http1Body::read_to_bytes over a scripted AsyncRead: requests from a grammar (9 methods, origin-form targets with queries, 1.0/1.1, 0-12 headers with unique names and `name:value` with every mix of optional spaces and tabs before and after the value, values with inner spaces, colons, tabs; CRLF or bare LF; HTTP/1.0 without Host + default host; bodies 0-3000 bytes; trailing bytes after the body) x EVERY single cut position for short messages, all chunk sizes 1..8, random patterns; heads of 16 KiB +- a few bytes and 40 KB heads in 100-byte reads (limit); malformed stream: bounded strings over structural bytes; compared with the model; oracle: parsed parts equal the generator's request, body = declared bytes, oversized heads are errors for every schedule; non-trivial = more than one read was needed"
     }
     fn generate(&self, ctx: &Ctx, rng: &mut Rng) -> Vec<String> {
         let mut v = Vec::new();
@@ -182,7 +184,8 @@ impl Group for Request1 {
                 let mut m: Vec<(String, String)> = Vec::new();
                 for (n, val) in &g.headers {
                     m.retain(|x| x.0 != n.to_ascii_lowercase());
-                    m.push((n.to_ascii_lowercase(), val.clone()));
+                    // the field value excludes optional whitespace at both ends (RFC 9110 §5.5)
+                    m.push((n.to_ascii_lowercase(), val.trim_matches(|c| c == ' ' || c == '\t').to_owned()));
                 }
                 m.iter().map(|(n, val)| format!("{}={}", hex(n.as_bytes()), hex(val.as_bytes()))).collect()
             };
